@@ -149,7 +149,18 @@ fn dump_one(rt: &Runtime<NoCtx>, path: &str, out_dir: &str) {
         if i > 0 { o.push_str(", "); }
         o.push_str(&format!("{{\"name\": {}, \"clif\": {}}}", json_str(n), json_str(t)));
     }
-    o.push_str("], \"data\": {");
+    o.push_str("], \"lir\": {");
+    let lir = capture::LIR.lock().unwrap();
+    for (i, (n, ins)) in lir.iter().enumerate() {
+        if i > 0 { o.push_str(", "); }
+        o.push_str(&format!("{}: [", json_str(n)));
+        for (j, x) in ins.iter().enumerate() {
+            if j > 0 { o.push_str(", "); }
+            o.push_str(&json_str(x));
+        }
+        o.push(']');
+    }
+    o.push_str("}, \"data\": {");
     let data = capture::DATA.lock().unwrap();
     for (i, (id, b)) in data.iter().enumerate() {
         if i > 0 { o.push_str(", "); }
@@ -292,6 +303,57 @@ fn run(script: &str, name: &str, sig: &str, args: &[u64]) {
     per_type!(pkg, name, sig, args; u8, u16, u32, u64, i8, i16, i32, i64, f32, f64, char);
 }
 
+/// run `main` of a script through the real LIR evaluator: eval <script> <types "u8,u8"> <hex args>
+fn eval_cmd(script: &str, types: &str, args: &[u64]) {
+    use roto::verif_api::IrValue;
+    let rt = runtime();
+    let src = std::fs::read_to_string(script).unwrap();
+    let mut vals = Vec::new();
+    for (t, &b) in types.split(',').filter(|t| !t.is_empty()).zip(args) {
+        vals.push(match t {
+            "bool" => IrValue::Bool(b & 1 == 1),
+            "u8" => IrValue::U8(b as u8),
+            "u16" => IrValue::U16(b as u16),
+            "u32" => IrValue::U32(b as u32),
+            "u64" => IrValue::U64(b),
+            "i8" => IrValue::I8(b as i8),
+            "i16" => IrValue::I16(b as i16),
+            "i32" => IrValue::I32(b as i32),
+            "i64" => IrValue::I64(b as i64),
+            "f32" => IrValue::F32(f32::from_bits(b as u32)),
+            "f64" => IrValue::F64(f64::from_bits(b)),
+            "char" => IrValue::Char(char::from_u32(b as u32).unwrap_or('\0')),
+            _ => { println!("{{\"error\": \"type {t}\"}}"); return; }
+        });
+    }
+    let r = std::panic::catch_unwind(std::panic::AssertUnwindSafe(|| {
+        roto::verif_api::eval_main(&rt, FileTree::test_file("s.roto", &src, 0), vals)
+    }));
+    match r {
+        Err(_) => println!("{{\"eval\": \"loud-stop\"}}"),
+        Ok(Err(e)) => println!("{{\"error\": {}}}", json_str(&e)),
+        Ok(Ok(None)) => println!("{{\"eval\": \"none\"}}"),
+        Ok(Ok(Some(v))) => {
+            let bits: u64 = match v {
+                IrValue::Bool(x) => x as u64,
+                IrValue::U8(x) => x as u64,
+                IrValue::U16(x) => x as u64,
+                IrValue::U32(x) => x as u64,
+                IrValue::U64(x) => x,
+                IrValue::I8(x) => x as u8 as u64,
+                IrValue::I16(x) => x as u16 as u64,
+                IrValue::I32(x) => x as u32 as u64,
+                IrValue::I64(x) => x as u64,
+                IrValue::F32(x) => x.to_bits() as u64,
+                IrValue::F64(x) => x.to_bits(),
+                IrValue::Char(x) => x as u32 as u64,
+                _ => { println!("{{\"eval\": \"other\"}}"); return; }
+            };
+            println!("{{\"eval\": \"{:#x}\"}}", bits);
+        }
+    }
+}
+
 fn main() {
     let a: Vec<String> = std::env::args().collect();
     match a.get(1).map(|s| s.as_str()) {
@@ -304,6 +366,10 @@ fn main() {
         Some("run") => {
             let args: Vec<u64> = a[5..].iter().map(|x| u64::from_str_radix(x.trim_start_matches("0x"), 16).unwrap()).collect();
             run(&a[2], &a[3], &a[4], &args);
+        }
+        Some("eval") => {
+            let args: Vec<u64> = a[4..].iter().map(|x| u64::from_str_radix(x.trim_start_matches("0x"), 16).unwrap()).collect();
+            eval_cmd(&a[2], &a[3], &args);
         }
         Some("run-child") => {
             let out = std::process::Command::new(std::env::current_exe().unwrap())
